@@ -415,7 +415,7 @@ class Check:
         return hi
 
     def muh_component(self, algo, profiles):
-        n, ops = (60, 70) if self.quick else (1500, 200)
+        n, ops = (300, 80) if self.quick else (1500, 200)
         if algo == 'leaf':
             # pure helper functions (size classes, alignment, page test, conflict table, rounding):
             # boundary sweep + random arguments, implementation vs. model
